@@ -44,7 +44,7 @@ CHECKS = [
              "16384 peers; ReadFrom FIFO with the right peer, unknown channel is an error, deadlines and Close, inbound never blocks and the "
              "queue is bounded. The model is run against the real UDPConn over a scripted TURN client: call sequences x server reactions "
              "(success, 400, 403, 438, transaction failure), inbound bursts, unknown channels, binding check timer, many peers, and the "
-             "ConnectionAttempt queue of the TCP allocation.",
+             "ConnectionAttempt queue of the TCP allocation. History level: the whole predicate evaluated on the observed traces (C13Check) is proved to hold on every trace of the model in which at most 16384 peers are written to (C13_holds_on_every_model_trace; Proofs/ClientConnTrace.v).",
      "note": "Trusted: Coq kernel, Go harness (scripted Client; client.go's two inbound call sites replicated; C09 covers client.go dispatch). "
              "maybeBind's background goroutine is abstracted to a later event. A third 438 in a row to one ChannelBind is not modelled.",
      "technique": "Coq proof (step characterisation + history invariants) + differential correspondence against internal/client/udp_conn.go under virtual time"},
@@ -147,7 +147,7 @@ CHECKS = [
      "technique": "Coq proof (inductive invariants / step characterisation over all histories) + differential correspondence of Model/Relay.v against the real turn.Server under virtual time, property predicate evaluated on the observed traces"},
     {"property_id": "C19",
      "text": "Coq theorems: every response goes to the request's source with its transaction id and method, Binding/Allocate report truthful addresses and the armed lifetime, retransmission returns the cached success and a different id 437 with no change, 420 path; chk_C19 on real traces."
-             + " History level: chk_C19 (incl. relayed-address uniqueness and 'a retransmission gets exactly the original success') is proved to hold on every model trace in which the generator never hands out a port in use; EVEN-PORT / RESERVATION-TOKEN / reservations are modelled.",
+             + " History level: chk_C19 (incl. relayed-address uniqueness and 'a retransmission gets exactly the original success') is proved to hold on every model trace in which the generator never hands out a port in use; EVEN-PORT / RESERVATION-TOKEN / reservations are modelled; an Allocate on a 5-tuple that holds an allocation is refused with 437 or with what authentication / an unknown attribute alone decide.",
      "note": RELAY_NOTE,
      "technique": "Coq proof (inductive invariants / step characterisation over all histories) + differential correspondence of Model/Relay.v against the real turn.Server under virtual time, property predicate evaluated on the observed traces"},
     {"property_id": "C10",
